@@ -286,6 +286,17 @@ func runC10(e *Env) {
 		cfg.SmallReaders = true
 		cfg.PerWriter = 2 + e.P(4)
 	}
+	if e.P(6) == 5 {
+		// streaming family: ONE writer (reader-typed messages needing several reads are not contiguous under concurrent
+		// writers - C09's known findings), readers with short reads and data+EOF, pool scribblers, sender often stalled so
+		// that chunks stay queued while the pool is being churned
+		cfg.Entries = []int{EReadFrom, EWrite1, EReadFrom, EWriterWrite}
+		cfg.Chan = ChanCfg{Async: true, Q: []int{2, 8, 3}[e.P(3)], Until: true}
+		cfg.Writers, cfg.PerWriter = 1, 2+e.P(4)
+		cfg.SmallReaders, cfg.ReaderShort = false, true
+		cfg.StallSender = e.P(2) == 0
+		cfg.Scribblers = 1 + e.P(2)
+	}
 	h := e.RunWriters(cfg)
 	segs, bad := parseWire(h.Rig.Conn, h.Calls)
 	if bad != "" {
